@@ -296,7 +296,7 @@ def dest_session(rng: Rng, grid_only: bool = False, fs_kind: str = "mem", n_tx: 
 # ------------------------------------------------------------------ source sessions
 def source_session(rng: Rng, fs_kind: str = "mem", cfg: Cfg | None = None, well_behaved: bool = False,
                    n_tx: int | None = None, always_drain: bool = False, quiet: bool = False,
-                   reconf: float = 0.0) -> Session:
+                   reconf: float = 0.0, vary_file: float = 0.0) -> Session:
     c = cfg or rand_cfg(rng)
     if cfg is None and not well_behaved:
         c.faults_s = rand_fault_table(rng, ["POSITIVE_ACK_LIMIT_REACHED", "CHECK_LIMIT_REACHED",
@@ -310,6 +310,11 @@ def source_session(rng: Rng, fs_kind: str = "mem", cfg: Cfg | None = None, well_
             # the user reconfigures the fault handler table between two transactions
             for _ in range(rng.randrange(1, 3)):
                 s.do(f"sethandler S {rng.choice(SRC_CONDS)} {rng.choice(FH)}")
+        if vary_file and t > 0 and not c.metadata_only and rng.chance(vary_file):
+            # the user rewrites the source file between two transactions: other content of the same length
+            # (mostly), or of another length
+            m = n if rng.chance(0.7) else rng.randrange(0, 2 * n + 2)
+            s.do(f"file S {c.src_path} {bytes(rng.randrange(256) for _ in range(m)).hex() or '-'}")
         r = rng.random()
         if not well_behaved and r < 0.08:
             s.do(f"put S dest={c.did} src=/missing.bin dst=/x mode=- closure=- msgs=-")
